@@ -45,6 +45,10 @@ pub struct RunReport {
     pub wall_ms: u64,
     pub harness_error: Option<String>,
     pub config: String,
+    /// Distinct cases covered by this evaluation when it is made of several
+    /// (cut-point enumeration: operation kind | mutation site | variant).
+    #[serde(default)]
+    pub extra_sites: Vec<String>,
 }
 
 impl RunReport {
